@@ -11,6 +11,7 @@ import (
 	"path/filepath"
 	"sort"
 	"strings"
+	"sync"
 )
 
 func thoroughExtra(c *Ctx, spec *PropSpec, r *Report, repo, mod string) {
@@ -94,10 +95,41 @@ func selftest(spec *PropSpec, repo string) map[string]interface{} {
 	res := map[string]interface{}{}
 	var rows []string
 	det, ndet, sil, nsil, skipped := 0, 0, 0, 0, 0
+	var mu sync.Mutex
+	var wg sync.WaitGroup
+	sem := make(chan struct{}, 8)
 	for _, v := range vs {
+		v := v
+		wg.Add(1)
+		sem <- struct{}{}
+		go func() {
+			defer func() { <-sem; wg.Done() }()
+			runVariant(spec, repo, v.name, v.patch, v.kind, &mu, &rows, &det, &ndet, &sil, &nsil, &skipped)
+		}()
+	}
+	wg.Wait()
+	sort.Strings(rows)
+	res["breaking_reported"] = fmt.Sprintf("%d/%d", det, ndet)
+	res["neutral_silent"] = fmt.Sprintf("%d/%d", sil, nsil)
+	res["skipped"] = skipped
+	res["variants"] = rows
+	return res
+}
+
+func runVariant(spec *PropSpec, repo, name, patch, kind string, mu *sync.Mutex, rowsP *[]string, det, ndet, sil, nsil, skipped *int) {
+	add := func(row string, f func()) {
+		mu.Lock()
+		*rowsP = append(*rowsP, row)
+		if f != nil {
+			f()
+		}
+		mu.Unlock()
+	}
+	v := struct{ name, patch, kind string }{name, patch, kind}
+	{
 		dir, err := os.MkdirTemp("", "verif-selftest-")
 		if err != nil {
-			continue
+			return
 		}
 		ok := exec.Command("rsync", "-a", "--exclude", ".git", repo+"/", dir+"/").Run() == nil
 		if ok {
@@ -106,38 +138,27 @@ func selftest(spec *PropSpec, repo string) map[string]interface{} {
 			ok = cmd.Run() == nil
 		}
 		if !ok {
-			skipped++
-			rows = append(rows, v.name+": skipped (patch does not apply to the current tree)")
+			add(v.name+": skipped (patch does not apply to the current tree)", func() { *skipped++ })
 			os.RemoveAll(dir)
-			continue
+			return
 		}
 		cmd := exec.Command(os.Args[0], "-repo", dir, "-property", spec.ID, "-tier", "quick", "-evidence-dir", filepath.Join(dir, ".ev"), "-known", "/verif/known-findings.json", "-controls", "")
 		out, _ := cmd.CombinedOutput()
 		reported := strings.Contains(string(out), "\n  violated [") || strings.Contains(string(out), "\n  undecided [") || strings.HasPrefix(string(out), "  violated [") || strings.Contains(string(out), "CHECKER-")
 		switch v.kind {
 		case "breaking":
-			ndet++
 			if reported {
-				det++
-				rows = append(rows, v.name+": reported (expected)")
+				add(v.name+": reported (expected)", func() { *ndet++; *det++ })
 			} else {
-				rows = append(rows, v.name+": NOT reported (a recorded breaking change is missed)")
+				add(v.name+": NOT reported (a recorded breaking change is missed)", func() { *ndet++ })
 			}
 		case "neutral":
-			nsil++
 			if !reported {
-				sil++
-				rows = append(rows, v.name+": silent (expected)")
+				add(v.name+": silent (expected)", func() { *nsil++; *sil++ })
 			} else {
-				rows = append(rows, v.name+": ALARM on a behaviour-preserving change")
+				add(v.name+": ALARM on a behaviour-preserving change", func() { *nsil++ })
 			}
 		}
 		os.RemoveAll(dir)
 	}
-	sort.Strings(rows)
-	res["breaking_reported"] = fmt.Sprintf("%d/%d", det, ndet)
-	res["neutral_silent"] = fmt.Sprintf("%d/%d", sil, nsil)
-	res["skipped"] = skipped
-	res["variants"] = rows
-	return res
 }
